@@ -68,9 +68,17 @@ func (w *stressWriter) Write(b []byte) (int, error) {
 
 // stressHandler does what an ordinary application handler does: reads the
 // request headers, looks at the response headers, writes a body.
-type stressHandler struct{ hook func(string) }
+type stressHandler struct {
+	hook  func(string)
+	quiet bool // sets a header of its own, writes nothing: the head is serialised after the chain has returned (fault F11)
+}
 
 func (h stressHandler) ServeHTTP(w http.ResponseWriter, r *http.Request) {
+	if h.quiet {
+		w.Header().Add("Vary", "Accept-Encoding")
+		w.Header().Set("X-Handler", "quiet")
+		return
+	}
 	n := 0
 	for _, vs := range r.Header {
 		for _, v := range vs {
@@ -131,7 +139,7 @@ func stressCmd(dur time.Duration, goroutines int, seed uint64, outFile string) i
 }
 
 func stressRun(dur time.Duration, goroutines int, seed uint64, outFile string) int {
-	var nReq, nOp, nReent, bad, rounds atomic.Int64
+	var nReq, nOp, nReent, bad, rounds, nLate atomic.Int64
 	var firstBad atomic.Value
 	fail := func(format string, a ...any) {
 		bad.Add(1)
@@ -225,7 +233,23 @@ func stressRun(dur time.Duration, goroutines int, seed uint64, outFile string) i
 				defer wg.Done()
 				rr := rand.New(rand.NewPCG(seed^0x5eed, round<<8|uint64(g)))
 				isOperator := g%8 >= 5
+				// F11 under real concurrency: heads that are still to be serialised while this
+				// and other goroutines go on serving (what they reference must stay put; the
+				// race detector sees a pooled slice being rewritten underneath)
+				type lateHead struct {
+					h  http.Header
+					fp string
+					q  Req
+				}
+				var late []lateHead
 				for i := 0; time.Now().Before(stop); i++ {
+					if len(late) > 3 {
+						lh := late[0]
+						late = late[1:]
+						if now := headerFP(lh.h); now != lh.fp {
+							fail("the head of the response to %s (handler wrote nothing) was %s when the middleware returned and is %s a few requests later", lh.q, lh.fp, now)
+						}
+					}
 					if isOperator {
 						func() {
 							defer func() {
@@ -238,6 +262,20 @@ func stressRun(dur time.Duration, goroutines int, seed uint64, outFile string) i
 						continue
 					}
 					qi := rr.IntN(len(reqs))
+					if rr.IntN(12) == 0 {
+						w := &stressWriter{h: http.Header{}}
+						func() {
+							defer func() {
+								if p := recover(); p != nil {
+									fail("PANIC under concurrency (quiet handler): %v", p)
+								}
+							}()
+							m.Wrap(stressHandler{quiet: true}).ServeHTTP(w, reqs[qi].build())
+						}()
+						late = append(late, lateHead{w.h, headerFP(w.h), reqs[qi]})
+						nLate.Add(1)
+						continue
+					}
 					var hook func(string)
 					if rr.IntN(10) == 0 {
 						where := []string{"header", "writeheader", "handler"}[rr.IntN(3)]
@@ -254,7 +292,7 @@ func stressRun(dur time.Duration, goroutines int, seed uint64, outFile string) i
 					if hook == nil && i%2 == 0 {
 						h = longLivedH
 					} else {
-						h = m.Wrap(stressHandler{hook})
+						h = m.Wrap(stressHandler{hook: hook})
 					}
 					got, pan := stressServe(h, reqs[qi], hook)
 					nReq.Add(1)
@@ -268,7 +306,7 @@ func stressRun(dur time.Duration, goroutines int, seed uint64, outFile string) i
 		}
 		wg.Wait()
 	}
-	stats := map[string]any{"requests": nReq.Load(), "operator_calls": nOp.Load(), "reentrant_operator_calls": nReent.Load(), "rounds_with_fresh_configurations": rounds.Load(),
+	stats := map[string]any{"requests": nReq.Load(), "operator_calls": nOp.Load(), "reentrant_operator_calls": nReent.Load(), "rounds_with_fresh_configurations": rounds.Load(), "heads_serialised_late_F11": nLate.Load(),
 		"goroutines": goroutines, "duration_s": dur.Seconds(), "seed": seed, "responses_matching_no_state": bad.Load(), "race_detector": "on (go build -race), none reported"}
 	if fb := firstBad.Load(); fb != nil {
 		stats["first_mismatch"] = fb
